@@ -245,8 +245,11 @@ VOP(rl_relay)
 	}
 	Dictionary::Ptr message = new Dictionary({ { "jsonrpc", "2.0" }, { "method", "vf::ev" }, { "params", params } });
 	size_t before = l_L->m_LogMessageCount;
-	bool rotatedBefore = false;
-	(void)rotatedBefore;
+	std::string conn, pos0, pos1;
+	for (int k = 1; k <= NEP; k++) {
+		conn += l_Ep[k]->GetConnected() ? "1" : "0";
+		pos0 += (k > 1 ? "," : "") + std::to_string((long)l_Ep[k]->GetLocalLogPosition());
+	}
 	l_L->SyncRelayMessage(nullptr, SecObj(a.str("sec", "-")), message, true);
 	Poll();
 	std::string live;
@@ -255,7 +258,11 @@ VOP(rl_relay)
 		std::string q = DumpQueue(i);
 		if (q != "-") { if (!live.empty()) live += ";"; live += std::to_string(i) + "=" + q; }
 	}
-	Out("rl_relay logged=" + std::to_string(l_L->m_LogMessageCount != before ? 1 : 0) + " live=" + (live.empty() ? "-" : live));
+	for (int k = 1; k <= NEP; k++)
+		pos1 += (k > 1 ? "," : "") + std::to_string((long)l_Ep[k]->GetLocalLogPosition());
+	// GetConnected() / GetLocalLogPosition() of every endpoint before and after (C12_position_only_moves_for_connected)
+	Out("rl_relay logged=" + std::to_string(l_L->m_LogMessageCount != before ? 1 : 0) + " live=" + (live.empty() ? "-" : live) +
+		" conn=" + conn + " pos0=" + pos0 + " pos=" + pos1);
 }
 
 // rl_conn e=ID [mirror=1] : the endpoint connects; flags as NewClientHandler/SyncClient set them; ReplayLog.
